@@ -187,61 +187,259 @@ Definition supervise (max_regenerations max_steps : Z) : swarm_result :=
 End Swarm.
 
 (* ====================================================================== *)
-(* 3. LLM tool loop                                                        *)
+(* 3. LLM tool loop — re-entrant                                           *)
+
+(* The loop hands control to code it does not own: the provider and, through
+   Mitochondria.execute_tool_call, the registered tools.  A tool is a closure;
+   it may hold the very Nucleus that is running the loop and use it WHILE the
+   round is being executed: call transcribe_with_tools again (a sub-agent
+   exposed as a tool), ask a plain question through transcribe, or clear_log.
+   The property is per call: every activation of transcribe_with_tools,
+   outermost or nested at any depth, stays within ITS OWN max_iterations.
+
+   The environment is a state machine over an ARBITRARY state type St (a
+   provider / tool may remember anything about the whole history, across
+   nested and consecutive calls); the Nucleus' own mutable state is its
+   transcription_log (list of logged response ids). *)
 
 (* provider.complete_with_tools: (response, tool_calls) or raises *)
 Inductive presp := PResp (c : Z) (calls : list Z) | PRaise.
+Inductive tfinal := TReturned (c : Z) | TProviderRaised.
 
-Inductive tevent :=
-| EvTools (k : nat) (prev : list Z)          (* complete_with_tools, round k, results in the prompt *)
-| EvExec (call res : Z)                      (* mitochondria.execute_tool_call *)
-| EvComplete (final : bool) (prev : list Z). (* provider.complete (plain) *)
+(* what a registered tool does with the Nucleus while it runs *)
+Inductive taction :=
+| TPlain (r : Z)                      (* nothing; r = its result (negative: it raised) *)
+| TClear (r : Z)                      (* nucleus.clear_log(), then result r *)
+| TAsk (q : Z)                        (* nucleus.transcribe(prompt q) *)
+| TNest (q limit : Z) (auto : bool).  (* nucleus.transcribe_with_tools(prompt q, mitochondria,
+                                         max_iterations=limit, auto_execute=auto) on the SAME nucleus *)
 
-Inductive tfinal := TReturned (c : Z) (logged : bool) | TProviderRaised.
+(* what one activation did, in order; what a tool did is nested inside the
+   execute_tool_call event *)
+Inductive trace :=
+| TNil
+| TTools (q : Z) (prev : list Z) (rest : trace)       (* provider.complete_with_tools(prompt q + results prev) *)
+| TExec (call : Z) (i : inner) (res : Z) (rest : trace)  (* mitochondria.execute_tool_call *)
+| TComplete (q : Z) (final : bool) (prev : list Z) (rest : trace)  (* provider.complete (plain) *)
+with inner :=
+| INone
+| IClear
+| IAsk (q : Z) (c : option Z)
+| ICall (q limit : Z) (auto : bool) (t : trace) (f : tfinal)   (* a nested activation *)
+| IOutOfFuel.                          (* model artefact: nesting deeper than the fuel *)
+
+(* invocations made BY THIS activation (not by activations nested in it) *)
+Fixpoint rounds (t : trace) : nat :=
+  match t with
+  | TNil => O
+  | TTools _ _ r => S (rounds r)
+  | TExec _ _ _ r => rounds r
+  | TComplete _ _ _ r => rounds r
+  end.
+Fixpoint completions (t : trace) : nat :=
+  match t with
+  | TNil => O
+  | TTools _ _ r => completions r
+  | TExec _ _ _ r => completions r
+  | TComplete _ _ _ r => S (completions r)
+  end.
+Fixpoint execs (t : trace) : nat :=
+  match t with
+  | TNil => O
+  | TTools _ _ r => execs r
+  | TExec _ _ _ r => S (execs r)
+  | TComplete _ _ _ r => execs r
+  end.
+
+Definition final_of (c : option Z) : tfinal :=
+  match c with Some c => TReturned c | None => TProviderRaised end.
+Definition content_of (f : tfinal) : option Z :=
+  match f with TReturned c => Some c | TProviderRaised => None end.
 
 Section Tools.
-Variable with_tools : nat -> list Z -> presp.   (* round index, previous round's tool results *)
-Variable complete : bool -> list Z -> option Z. (* plain completion; None = raises *)
-Variable exec : Z -> Z.                         (* tool call -> result (never raises) *)
-Variable auto : bool.                           (* auto_execute *)
+Variable St : Type.
+(* provider.complete_with_tools(prompt, ...): sees the base prompt (id q) and the
+   tool results the prompt carries *)
+Variable with_tools : St -> Z -> list Z -> St * presp.
+(* provider.complete(prompt): None = raises *)
+Variable complete : St -> Z -> bool -> list Z -> St * option Z.
+(* the tool named by a call: what it does ... *)
+Variable tool_pre : St -> Z -> St * taction.
+(* ... and, when it used the nucleus, the result it computes from the nested
+   response (None: the nested call raised; execute_tool_call turns that into an
+   error result) *)
+Variable tool_post : St -> Z -> option Z -> St * Z.
+(* mitochondria.export_tool_schemas() non-empty; hasattr(provider, 'complete_with_tools') *)
+Variable has_tools has_method : bool.
 
-Fixpoint tool_loop (n k : nat) (prev : list Z) : list tevent * tfinal :=
+(* Nucleus.transcribe: one plain completion, logged when it returns *)
+Definition transcribe (s : St) (log : list Z) (q : Z) (final : bool) (prev : list Z)
+  : St * list Z * option Z :=
+  let '(s1, r) := complete s q final prev in
+  match r with
+  | Some c => (s1, log ++ [c], Some c)
+  | None => (s1, log, None)
+  end.
+
+Section Level.
+(* a nested transcribe_with_tools on the same nucleus *)
+Variable nested : St -> list Z -> Z -> Z -> bool -> St * list Z * inner * option Z.
+
+Definition exec_one (s : St) (log : list Z) (call : Z) : St * list Z * inner * Z :=
+  let '(s1, act) := tool_pre s call in
+  match act with
+  | TPlain r => (s1, log, INone, r)
+  | TClear r => (s1, [], IClear, r)
+  | TAsk q =>
+      let '(s2, log2, c) := transcribe s1 log q false [] in
+      let '(s3, r) := tool_post s2 call c in
+      (s3, log2, IAsk q c, r)
+  | TNest q limit auto =>
+      let '(s2, log2, i, c) := nested s1 log q limit auto in
+      let '(s3, r) := tool_post s2 call c in
+      (s3, log2, i, r)
+  end.
+
+(* for call in tool_calls: result = mitochondria.execute_tool_call(call) *)
+Fixpoint exec_all (s : St) (log : list Z) (calls : list Z)
+  : St * list Z * list (Z * inner * Z) :=
+  match calls with
+  | [] => (s, log, [])
+  | call :: rest =>
+      let '(s1, log1, i, r) := exec_one s log call in
+      let '(s2, log2, xs) := exec_all s1 log1 rest in
+      (s2, log2, (call, i, r) :: xs)
+  end.
+
+Fixpoint add_execs (xs : list (Z * inner * Z)) (t : trace) : trace :=
+  match xs with
+  | [] => t
+  | (call, i, r) :: xs' => TExec call i r (add_execs xs' t)
+  end.
+
+(* while iterations < max_iterations: n = rounds still allowed (a LOCAL of the
+   activation: nothing a tool does can reach it) *)
+Fixpoint tool_loop (n : nat) (s : St) (log : list Z) (q : Z) (prev : list Z) (auto : bool)
+  : St * list Z * trace * tfinal :=
   match n with
   | O =>
-      ([EvComplete true prev],
-       match complete true prev with
-       | Some c => TReturned c true
-       | None => TProviderRaised
-       end)
+      let '(s1, log1, c) := transcribe s log q true prev in
+      (s1, log1, TComplete q true prev TNil, final_of c)
   | S n' =>
-      match with_tools k prev with
-      | PRaise => ([EvTools k prev], TProviderRaised)
-      | PResp c [] => ([EvTools k prev], TReturned c true)
+      let '(s1, r) := with_tools s q prev in
+      match r with
+      | PRaise => (s1, log, TTools q prev TNil, TProviderRaised)
+      | PResp c [] => (s1, log ++ [c], TTools q prev TNil, TReturned c)
       | PResp c calls =>
           if auto then
-            let res := map exec calls in
-            let '(evs, f) := tool_loop n' (S k) res in
-            (EvTools k prev :: map (fun cr => EvExec (fst cr) (snd cr)) (combine calls res) ++ evs, f)
-          else ([EvTools k prev], TReturned c false)
+            let '(s2, log2, xs) := exec_all s1 log calls in
+            let '(s3, log3, t, f) := tool_loop n' s2 log2 q (map snd xs) auto in
+            (s3, log3, TTools q prev (add_execs xs t), f)
+          else (s1, log, TTools q prev TNil, TReturned c)
       end
   end.
 
-(* has_tools: mitochondria.export_tool_schemas() non-empty;
-   has_method: hasattr(provider, 'complete_with_tools') *)
-Definition transcribe_with_tools (has_tools has_method : bool) (max_iterations : Z)
-  : list tevent * tfinal :=
-  if has_tools && has_method then tool_loop (Z.to_nat max_iterations) 0 []
-  else ([EvComplete false []],
-        match complete false [] with
-        | Some c => TReturned c true
-        | None => TProviderRaised
-        end).
-End Tools.
+Definition twt (s : St) (log : list Z) (q limit : Z) (auto : bool)
+  : St * list Z * trace * tfinal :=
+  if has_tools && has_method then tool_loop (Z.to_nat limit) s log q [] auto
+  else
+    let '(s1, log1, c) := transcribe s log q false [] in
+    (s1, log1, TComplete q false [] TNil, final_of c).
+End Level.
 
-Definition is_tools_ev (e : tevent) : bool := match e with EvTools _ _ => true | _ => false end.
-Definition is_exec_ev (e : tevent) : bool := match e with EvExec _ _ => true | _ => false end.
-Definition is_complete_ev (e : tevent) : bool := match e with EvComplete _ _ => true | _ => false end.
-Definition count (p : tevent -> bool) (l : list tevent) : nat := length (filter p l).
+(* d = nesting fuel (Python: the interpreter stack) *)
+Fixpoint nested_call (d : nat) (s : St) (log : list Z) (q limit : Z) (auto : bool)
+  : St * list Z * inner * option Z :=
+  match d with
+  | O => (s, log, IOutOfFuel, None)
+  | S d' =>
+      let '(s1, log1, t, f) := twt (nested_call d') s log q limit auto in
+      (s1, log1, ICall q limit auto t f, content_of f)
+  end.
+
+Definition transcribe_with_tools (d : nat) (s : St) (log : list Z) (q limit : Z) (auto : bool)
+  : St * list Z * trace * tfinal :=
+  twt (nested_call d) s log q limit auto.
+
+(* consecutive calls on ONE nucleus / provider / mitochondria (state carried over) *)
+Record tcall := mkCall {
+  c_q : Z; c_limit : Z; c_auto : bool; c_trace : trace; c_final : tfinal; c_loglen : nat }.
+
+Fixpoint run_calls (d : nat) (s : St) (log : list Z) (q : Z) (cs : list (Z * bool))
+  : list tcall * list Z :=
+  match cs with
+  | [] => ([], log)
+  | (limit, auto) :: rest =>
+      let '(s1, log1, t, f) := transcribe_with_tools d s log q limit auto in
+      let '(rs, logf) := run_calls d s1 log1 (q + 1) rest in
+      (mkCall q limit auto t f (length log1) :: rs, logf)
+  end.
+End Tools.
+Arguments transcribe {St}.
+Arguments exec_one {St}.
+Arguments exec_all {St}.
+Arguments tool_loop {St}.
+Arguments twt {St}.
+Arguments nested_call {St}.
+Arguments transcribe_with_tools {St}.
+Arguments run_calls {St}.
+
+(* ---- specification predicates (used by Property.v) ---------------------- *)
+
+(* a plain completion, if any, is the last thing the activation does *)
+Fixpoint complete_last (t : trace) : Prop :=
+  match t with
+  | TNil => True
+  | TTools _ _ r => complete_last r
+  | TExec _ _ _ r => complete_last r
+  | TComplete _ _ _ r => r = TNil
+  end.
+
+(* one activation within its own budget *)
+Definition local_ok (limit : Z) (t : trace) : Prop :=
+  (rounds t <= Z.to_nat limit)%nat /\
+  (completions t <= 1)%nat /\
+  (rounds t + completions t <= Z.to_nat limit + 1)%nat /\
+  (0 <= limit -> Z.of_nat (rounds t) <= limit /\ Z.of_nat (rounds t + completions t) <= limit + 1) /\
+  complete_last t.
+
+(* P holds of every activation nested (at any depth) inside a trace *)
+Section NestedAll.
+Variable P : Z -> bool -> trace -> Prop.    (* max_iterations, auto_execute, the activation's trace *)
+Fixpoint nested_all (t : trace) : Prop :=
+  match t with
+  | TNil => True
+  | TTools _ _ r => nested_all r
+  | TExec _ i _ r => inner_all i /\ nested_all r
+  | TComplete _ _ _ r => nested_all r
+  end
+with inner_all (i : inner) : Prop :=
+  match i with
+  | ICall _ limit auto t _ => P limit auto t /\ nested_all t
+  | _ => True
+  end.
+End NestedAll.
+
+(* "even if the provider requests tools forever": an auto-executing activation
+   then uses its budget exactly *)
+Definition exact_when_auto (limit : Z) (auto : bool) (t : trace) : Prop :=
+  auto = true ->
+  rounds t = Z.to_nat limit /\ completions t = 1%nat /\ (Z.to_nat limit <= execs t)%nat.
+
+(* the nesting fuel was not exhausted anywhere *)
+Fixpoint fuel_ok (t : trace) : Prop :=
+  match t with
+  | TNil => True
+  | TTools _ _ r => fuel_ok r
+  | TExec _ i _ r => inner_fuel_ok i /\ fuel_ok r
+  | TComplete _ _ _ r => fuel_ok r
+  end
+with inner_fuel_ok (i : inner) : Prop :=
+  match i with
+  | ICall _ _ _ t _ => fuel_ok t
+  | IOutOfFuel => False
+  | _ => True
+  end.
 
 (* ====================================================================== *)
 (* concrete behaviour families used by the generated correspondence cases  *)
@@ -295,47 +493,86 @@ Inductive pitem := PI (c : Z) (calls : list Z) | PIRaise.
 Definition pitem_resp (i : pitem) : presp :=
   match i with PI c calls => PResp c calls | PIRaise => PRaise end.
 Inductive pbeh :=
-| PScript (items : list pitem) (dflt : pitem)      (* by round index *)
+| PScript (items : list pitem) (dflt : pitem)      (* by the provider's own (global) invocation index *)
 | PStopOnErr (tools plain : pitem)                 (* plain once a tool result is negative *)
-| PChain (c : Z) (first : list Z).                 (* next calls derived from the results: never repeats *)
+| PChain (c : Z) (first : list Z)                  (* next calls derived from the results: never repeats *)
+| PBySub (top sub : pitem).                        (* by prompt: top-level prompts (id < 100) / sub-agent prompts *)
 
-Definition interp_prov (p : pbeh) (k : nat) (prev : list Z) : presp :=
+(* g = number of complete_with_tools invocations made so far on this provider
+   object (over all activations, nested or consecutive) *)
+Definition interp_prov (p : pbeh) (g : nat) (q : Z) (prev : list Z) : presp :=
   match p with
-  | PScript items dflt => pitem_resp (nth k items dflt)
+  | PScript items dflt => pitem_resp (nth g items dflt)
   | PStopOnErr tools plain =>
       if existsb (fun r => Z.ltb r 0) prev then pitem_resp plain else pitem_resp tools
   | PChain c first =>
       match prev with
       | [] => PResp c first
-      | _ => PResp (c + Z.of_nat k) (map (fun r => 10 * (Z.abs r mod 50) + Z.of_nat k mod 3) prev)
+      | _ => PResp (c + Z.of_nat g) (map (fun r => 10 * (Z.abs r mod 50) + Z.of_nat g mod 3) prev)
       end
+  | PBySub top sub => if Z.ltb q 100 then pitem_resp top else pitem_resp sub
   end.
 
 (* plain completion: response id derived from what the prompt carried *)
 Inductive cbeh := CAff (a : Z) | CRaise | CRaiseFinal.
-Definition interp_complete (c : cbeh) (final : bool) (prev : list Z) : option Z :=
+Definition interp_complete (c : cbeh) (q : Z) (final : bool) (prev : list Z) : option Z :=
   match c with
-  | CAff a => Some (a + (if final then 1 else 0) + 2 * fold_right Z.add 0 prev)
+  | CAff a => Some (a + (if final then 1 else 0) + 2 * fold_right Z.add 0 prev + 7 * q)
   | CRaise => None
   | CRaiseFinal => if final then None else Some 0
   end.
 
-(* tool call id = 10 * argument + tool index; tools: true = returns 2a+1,
-   false = raises (error result -(a+1)); unknown tool index: -1000 *)
-Definition interp_exec (tools : list bool) (call : Z) : Z :=
-  let t := Z.to_nat (call mod 10) in
+(* registered tools.  tool call id = 10 * argument + tool index.
+   KOk returns 2a+1; KBoom raises (error result -(a+1)); an unregistered index
+   gives the error result -1000; KClear calls nucleus.clear_log() and returns
+   2a+1; KAsk returns what nucleus.transcribe(sub prompt) answered; KNest is a
+   sub-agent: nucleus.transcribe_with_tools(sub prompt, same mitochondria,
+   max_iterations=limit, auto_execute=auto) and returns its answer, unless
+   max_depth tool frames are already open (then it behaves like KOk).  A nested
+   provider exception surfaces as the error result -777. *)
+Inductive tkind := KOk | KBoom | KClear | KAsk | KNest (limit : Z) (auto : bool).
+
+(* environment state of the scripted stubs: complete_with_tools invocations so
+   far, tool frames currently open *)
+Definition cst := (nat * nat)%type.
+Definition sub_q (dep : nat) (a : Z) : Z := 100 * Z.of_nat (S dep) + a.
+
+Definition interp_with_tools (p : pbeh) (s : cst) (q : Z) (prev : list Z) : cst * presp :=
+  ((S (fst s), snd s), interp_prov p (fst s) q prev).
+Definition interp_complete_st (c : cbeh) (s : cst) (q : Z) (final : bool) (prev : list Z)
+  : cst * option Z := (s, interp_complete c q final prev).
+
+Definition tool_of (tools : list tkind) (call : Z) : option tkind :=
+  nth_error tools (Z.to_nat (call mod 10)).
+
+Definition interp_tool_pre (tools : list tkind) (max_depth : nat) (s : cst) (call : Z)
+  : cst * taction :=
   let a := call / 10 in
-  match nth_error tools t with
-  | Some true => 2 * a + 1
-  | Some false => - (a + 1)
-  | None => -1000
+  match tool_of tools call with
+  | Some KOk => (s, TPlain (2 * a + 1))
+  | Some KBoom => (s, TPlain (- (a + 1)))
+  | Some KClear => (s, TClear (2 * a + 1))
+  | Some KAsk => (s, TAsk (sub_q (snd s) a))
+  | Some (KNest limit auto) =>
+      if Nat.ltb (snd s) max_depth
+      then ((fst s, S (snd s)), TNest (sub_q (snd s) a) limit auto)
+      else (s, TPlain (2 * a + 1))
+  | None => (s, TPlain (-1000))
+  end.
+
+Definition interp_tool_post (tools : list tkind) (s : cst) (call : Z) (c : option Z) : cst * Z :=
+  let r := match c with Some x => x | None => -777 end in
+  match tool_of tools call with
+  | Some (KNest _ _) => ((fst s, Nat.pred (snd s)), r)
+  | _ => (s, r)
   end.
 
 Inductive case :=
 | CHeal (g : gbeh) (v : list (Z * vres)) (decay : Q) (max_retries : Z)
 | CSwarm (fac : list bool) (beh : list (list wstep)) (dflt : wstep) (thr : Q)
          (max_regenerations max_steps : Z)
-| CTool (p : pbeh) (c : cbeh) (tools : list bool) (auto has_method : bool) (max_iterations : Z).
+| CTool (p : pbeh) (c : cbeh) (tools : list tkind) (has_method : bool) (max_depth : nat)
+        (calls : list (Z * bool)).   (* consecutive calls on one nucleus: (max_iterations, auto_execute) *)
 
 Definition b2z (b : bool) : Z := if b then 1 else 0.
 Definition n2z (n : nat) : Z := Z.of_nat n.
@@ -377,24 +614,43 @@ Definition obs_swarm (r : swarm_result) : list (list Z) :=
   ++ map (fun w => [20; n2z (w_idx w); n2z (w_steps w); wres_code (w_res w)]) (s_workers r)
   ++ (if s_returned r then map (fun p : nat * nat => [21; n2z (fst p); n2z (snd p)]) (s_regen r) else []).
 
-Definition obs_tool (r : list tevent * tfinal) : list (list Z) :=
-  let '(evs, f) := r in
-  [ match f with
-    | TReturned c logged => [3; 1; c; b2z logged]
-    | TProviderRaised => [3; 0; 0; 0]
-    end ++ [ n2z (count is_tools_ev evs); n2z (count is_complete_ev evs); n2z (count is_exec_ev evs) ] ]
-  ++ map (fun e => match e with
-                   | EvTools k prev => 30 :: n2z k :: prev
-                   | EvExec c x => [31; c; x]
-                   | EvComplete final prev => 32 :: b2z final :: prev
-                   end) evs.
+(* chronological, flat: every line carries the nesting depth of the activation
+   (or tool frame) it belongs to *)
+Fixpoint obs_trace (dep : nat) (t : trace) : list (list Z) :=
+  match t with
+  | TNil => []
+  | TTools q prev r => (30 :: n2z dep :: q :: prev) :: obs_trace dep r
+  | TExec call i res r => obs_inner (S dep) i ++ [31; n2z dep; call; res] :: obs_trace dep r
+  | TComplete q final prev r => (32 :: n2z dep :: b2z final :: q :: prev) :: obs_trace dep r
+  end
+with obs_inner (dep : nat) (i : inner) : list (list Z) :=
+  match i with
+  | INone => []
+  | IClear => [[35; n2z dep]]
+  | IAsk q _ => [[32; n2z dep; 0; q]]
+  | ICall q limit auto t f =>
+      [33; n2z dep; q; limit; b2z auto] :: obs_trace dep t
+      ++ [ [34; n2z dep] ++ (match f with TReturned c => [1; c] | TProviderRaised => [0; 0] end)
+           ++ [n2z (rounds t); n2z (completions t); n2z (execs t)] ]
+  | IOutOfFuel => [[-996]]
+  end.
+
+Definition obs_tool (r : list tcall * list Z) : list (list Z) :=
+  let '(cs, log) := r in
+  [3; n2z (length cs); n2z (length log)] :: (36 :: log)
+  :: flat_map (fun c => obs_inner 0 (ICall (c_q c) (c_limit c) (c_auto c) (c_trace c) (c_final c))
+                        ++ [[37; n2z (c_loglen c)]]) cs.
+
+Definition nest_fuel : nat := 8.
 
 Definition run_case (c : case) : list (list Z) :=
   match c with
   | CHeal g v decay mr => obs_heal (heal (interp_gen g) (interp_val v) decay mr)
   | CSwarm fac beh d thr mg ms =>
       obs_swarm (supervise (interp_fac fac) (interp_beh beh d) thr mg ms)
-  | CTool p c tools auto hm mi =>
-      obs_tool (transcribe_with_tools (interp_prov p) (interp_complete c) (interp_exec tools) auto
-                  (match tools with [] => false | _ => true end) hm mi)
+  | CTool p c tools hm md calls =>
+      obs_tool (run_calls (interp_with_tools p) (interp_complete_st c)
+                  (interp_tool_pre tools md) (interp_tool_post tools)
+                  (match tools with [] => false | _ => true end) hm
+                  nest_fuel (0%nat, 0%nat) [] 0 calls)
   end.
